@@ -58,7 +58,7 @@ def gen_source(mon, k, n):
         yield make_row(k, i)
 
 
-def counting_parser(mon, n):
+def counting_parser(mon, n, blanks=False):
     """A tabulator parser (plugged in through load's documented pass-through of format= / custom_parsers=) whose rows come
     from the monitored generator: a file source whose reading pattern the harness can see."""
     from tabulator.parser import Parser
@@ -96,6 +96,10 @@ def counting_parser(mon, n):
             for i in range(n):
                 mon.pull(0)
                 r = make_row(0, i)
+                if blanks and 100 <= i < 100 + n // 2:
+                    # a long stretch of blank lines in the middle of the file (its length grows with the file)
+                    yield i + 2, None, ['' for c in names]
+                    continue
                 yield i + 2, None, ['' if r[c] is None else str(r[c]) for c in names]
     return CountingParser
 
@@ -108,6 +112,8 @@ FILE_OPTS = {
     'file-nocast': {'cast_strategy': 'nothing'},
     'file-castcheck': {'cast_strategy': 'schema'},
     'file-limit': {'limit_rows': 1200},
+    'file-blanks': {},
+    'file-blanks-strings': {'infer_strategy': 'strings'},
     'file-override': {'override_fields': {'s': {'type': 'string'}}, 'extract_missing_values': True},
 }
 
@@ -249,7 +255,7 @@ def run_one(srckind, path, n):
         elif srckind in FILE_OPTS:
             fpath = d + '/numbers.cnt'
             open(fpath, 'w').close()
-            links.append(core.dataflows.load(fpath, name='t', format='cnt', custom_parsers={'cnt': counting_parser(mon, n)},
+            links.append(core.dataflows.load(fpath, name='t', format='cnt', custom_parsers={'cnt': counting_parser(mon, n, blanks='blanks' in srckind)},
                                              **FILE_OPTS[srckind]))
         elif srckind == 'genlist':
             # an iterable of lists (columns col0, col1, ...): renamed so that the steps of the alphabet still apply
@@ -267,7 +273,14 @@ def run_one(srckind, path, n):
                 links.append(e1.build_link(sym, env))
 
             def terminal(rows):
+                nblank = 0
                 for r in rows:
+                    if r['_i'] in (None, ''):
+                        # a blank line of the file: they arrive in order, the k-th one is line 100+k of the source
+                        mon.deliver(0, 100 + nblank)
+                        nblank += 1
+                        yield r
+                        continue
                     mon.deliver(int(r['_src']), int(r['_i']))
                     yield r
                     if take10 and mon.delivered >= 10:
